@@ -244,3 +244,54 @@ def peer_type_reply_cases(rng, n):
             ops.append('op sreply 0 %d %d %s %d - %s' % (i, now, pipeline.rnd40(rng), rcode, ' '.join(attrs)))
         out.append(('ptype-%d' % k, cfg.conf_lines() + cfg.cfg_lines() + ops))
     return out
+
+
+def dynext_cases(rng, n):
+    """C12/C04/C15 for dynamically discovered servers: the template block gives some options, the block printed by the
+    lookup command gives others; what applies afterwards is the printed value, else the template's, else the default of
+    the transport -- except requireMessageAuthenticator (template only) and CertificateCNCheck (printed block only)"""
+    import os
+    script = os.path.join(os.path.dirname(os.path.dirname(os.path.abspath(__file__))), 'harness', 'lookup2.sh')
+    tname = {0: 'udp', 2: 'tcp'}
+    ssname = {0: 'off', 1: 'on', 2: 'minimal', 3: 'auto'}
+    out = []
+    for k in range(n):
+        ty = rng.choice([0, 0, 2])
+        t = {'type': ty,
+             'ri': rng.choice([None, None, 1, 5, 30, 60]),
+             'rc': rng.choice([None, None, 0, 1, 3, 10]) if ty == 0 else rng.choice([None, 0]),
+             'reqma': rng.random() < 0.5, 'nc': rng.random() < 0.6, 'cnc': rng.random() < 0.4, 'ss': rng.choice([None, 0, 1, 2, 3])}
+        conf = ['conf client c1 {', 'conf   type udp', 'conf   host 10.0.0.1', 'conf   secret x', 'conf }',
+                'conf server tmpl {', 'conf   type %s' % tname[ty], 'conf   secret y', 'conf   dynamicLookupCommand %s' % script]
+        if t['ri'] is not None: conf.append('conf   RetryInterval %d' % t['ri'])
+        if t['rc'] is not None: conf.append('conf   RetryCount %d' % t['rc'])
+        if t['reqma']: conf.append('conf   requireMessageAuthenticator on')
+        conf.append('conf   CertificateNameCheck %s' % ('on' if t['nc'] else 'off'))
+        if t['cnc']: conf.append('conf   CertificateCNCheck on')
+        if t['ss'] is not None: conf.append('conf   StatusServer %s' % ssname[t['ss']])
+        conf += ['conf }', 'conf realm * {', 'conf   server tmpl', 'conf }', 'cfg nopipe']
+        ops = []
+        for _ in range(4):
+            lty = rng.choice([None, None, ty])
+            ety = ty if lty is None else lty
+            l = {'type': lty,
+                 'ri': rng.choice([None, None, 1, 7, 60]),
+                 'rc': (rng.choice([None, None, 0, 2, 10]) if ety == 0 else rng.choice([None, None, 0])),
+                 'reqma': rng.choice([None, None, True, False]), 'nc': rng.choice([None, None, True, False]),
+                 'cnc': rng.choice([None, None, True, False]), 'ss': rng.choice([None, None, 0, 1, 2, 3])}
+            blk = ['server dynamic {', '  host 192.0.2.9', '  type %s' % tname[ety]] if lty is not None else ['server dynamic {', '  host 192.0.2.9']
+            if rng.random() < 0.5: blk.append('  secret z')
+            if l['ri'] is not None: blk.append('  RetryInterval %d' % l['ri'])
+            if l['rc'] is not None: blk.append('  RetryCount %d' % l['rc'])
+            if l['reqma'] is not None: blk.append('  requireMessageAuthenticator %s' % ('on' if l['reqma'] else 'off'))
+            if l['nc'] is not None: blk.append('  CertificateNameCheck %s' % ('on' if l['nc'] else 'off'))
+            if l['cnc'] is not None: blk.append('  CertificateCNCheck %s' % ('on' if l['cnc'] else 'off'))
+            if l['ss'] is not None: blk.append('  StatusServer %s' % ssname[l['ss']])
+            blk.append('}')
+            def f(v): return '-' if v is None else (str(int(v)))
+            kvs = ['t.type=%d' % ty, 't.ri=%s' % (255 if t['ri'] is None else t['ri']), 't.rc=%s' % (255 if t['rc'] is None else t['rc']),
+                   't.reqma=%d' % t['reqma'], 't.nc=%d' % t['nc'], 't.cnc=%d' % t['cnc'], 't.ss=%d' % (0 if t['ss'] is None else t['ss'])]
+            kvs += ['l.%s=%s' % (x, f(l[x])) for x in ('type', 'ri', 'rc', 'reqma', 'nc', 'cnc', 'ss')]
+            ops.append('op dynext %s %s' % (hx(('\n'.join(blk) + '\n').encode()), ' '.join(kvs)))
+        out.append(('dynext-%d' % k, conf + ops))
+    return out
